@@ -162,7 +162,7 @@ def rowOK (rt : Int) (tup : List Int) : Bool :=
   (List.range 7).all fun w =>
     (tup[w]?).isSome && tup[w]? == Spec.C18.weekdayNum rt ((w : Int) + 1)
 
-/-- table obligation on the tuples extracted from date.py: the default is return type 1, every row is
+/-- table obligation on the tables observed by probing the running WEEKDAY: the default is return type 1, every row is
     the rotation its key stands for (so a key outside 1, 2, 3, 11 … 17 cannot occur), and every
     documented return type has a row -/
 def tableOK : Bool :=
